@@ -446,7 +446,9 @@ def check_fibers(case, rec):
         return Payload(s) if case["sbox"] else s
 
     def same(got, want, what):
-        if got != want:
+        # numeric equality: whether an intermediate that equals the default (0.0 after a cancelling float sum) is
+        # kept as an explicit element or dropped is not stated, and that alone can turn a later int into a float
+        if set(got) != set(want) or any(plain_value(got[p]) != plain_value(want[p]) for p in got):
             raise Violation("fiber-value", f"{what}: content {_fmt(got)}, expected {_fmt(want)}  "
                                            f"[f={tf} g={tg} s={s!r} shape={shape}]")
 
